@@ -4,7 +4,7 @@ from harness import gen_seq
 from runner import Case, CaseSet
 
 ID = 'C08'
-OBLIGATIONS = ['Props/C08.v', 'Props/Tie/region_tie.v', 'Props/Tie/charge_tie.v', 'Props/Tie/delta_formulas_tie.v']
+OBLIGATIONS = ['Props/C08.v', 'Props/Tie/region_tie.v', 'Props/Tie/charge_tie.v', 'Props/Tie/delta_formulas_tie.v', 'Props/Tie/minipy_forward_c08_tie.v']
 RULE = ('every triple (n+, n-, N) with N <= B (quick 60: 39 710 triples are enumerated by the proof; the correspondence '
         'realises every triple with N <= 36 quick / 70 thorough as a sequence with random spelling and arrangement) plus '
         'boundary compositions FCR in {1/4, 7/20}, |NCPR| = 7/20 for N up to 400; non-trivial = distinct composition')
